@@ -153,7 +153,8 @@ class HistGen:
             cell.append("deliv=" + ("named" if delivered == named else ("pairtok" if delivered in p.assets else "foreign")))
             op = w.op_swap_raw(actor, p, "hook", named, named_amt, delivered, delivered_amt, to=self.maybe_to(actor))
         else:
-            fmode = rng.choice(["exact", "less", "more", "absent", "extra", "other_only", "lookalike", "other_only", "split"])
+            fmode = rng.choice(["exact", "less", "more", "absent", "extra", "other_only", "lookalike", "other_only", "split",
+                                "many_coins", "digit_prefix"])
             funds = []
             nat_named = named if named[0] == "n" else None
             if fmode == "exact" and nat_named:
@@ -188,6 +189,19 @@ class HistGen:
                 funds = [[w.lookalikes[nat_named[1]], str(delivered_amt)]]
                 if actor not in ("attacker", "trader1", "trader2", "lp1"):
                     actor = "attacker"
+            elif fmode == "many_coins" and nat_named:
+                # the named coin sits behind more than 30 other coins in the (sorted) funds list
+                actor = "attacker"
+                funds = [[d_, "1"] for d_ in w.junk_denoms[:rng.choice([29, 30, 31, 34])]]
+                if rng.random() < 0.5:
+                    named_amt = 0
+                funds.append([nat_named[1], str(max(1, delivered_amt if amt_mode != "eq" or rng.random() < 0.5 else delivered_amt + 1))])
+            elif fmode == "digit_prefix" and nat_named and named_amt > 0:
+                # k of the coin "000<denom>" prints as "k000<denom>", exactly like k000 of <denom>
+                actor = "attacker"
+                k = max(1, named_amt // 1000)
+                named_amt = k * 1000
+                funds = [[w.digit_denoms[nat_named[1]], str(k)]]
             cell.append("funds=" + fmode)
             op = w.op_swap_raw(actor, p, "direct", named, named_amt, None, 0, to=self.maybe_to(actor),
                                funds_override=sorted(funds))
@@ -415,6 +429,10 @@ class HistGen:
         if nat:
             i = rng.choice(nat)
             dn = p.assets[i][1]
+            if mode in ("absent", "less", "zero_named") and len(nat) == 2 and rng.random() < 0.4:
+                # both declared amounts exactly equal (the coin found for one asset must not answer for the other)
+                d = [d[0], d[0]]
+                funds = dict((p.assets[j][1], d[j]) for j in nat)
             if mode == "less":
                 funds[dn] = max(0, d[i] - 1)
             elif mode == "more":
